@@ -441,5 +441,46 @@ def run(F, rep, tier):
             else:
                 rep.viol('R1.11', '%s|sharing-test|%s' % (fk, c.target.rsplit('::', 1)[-1]), '%s asks whether a payload is shared (%s on %s): if the answer selects a different computation, the result of an operation on x depends on whether some `y := x` exists - an alias changes what a later mutation of x does' % (fk, c.target.rsplit('::', 1)[-1], g[:60]), c.loc())
     rep.floor('R1.11', 'sharing-state queries in the crate', n111, 8)
+    # ---------------- R1.12
+    rep.rule('R1.12', 'an assignment computes its whole right-hand side from the old values: in the Expr::Assign arm of evaluate no '
+             'evaluate(..) call is reachable after an assign / assign_every call (a pairwise `a, b = x, y` fast path that writes a before '
+             'it evaluates y lets y read the new a)')
+    from .core import find_match as _fm12, arm_region as _ar12, pat_str as _ps12
+    if not F.has_fn('eval::evaluate'):
+        rep.error('R1.12', 'eval::evaluate missing')
+    else:
+        eb12 = F.body('eval::evaluate')
+        m12 = _fm12(F, 'eval::evaluate', r'core::Expr\b', min_arms=30)
+        n112 = 0
+        for i12, a12 in enumerate(m12['arms']):
+            ps12 = _ps12(a12['pat'])
+            if not re.search(r'\bExpr::Assign\b', ps12):
+                continue
+            regn12 = _ar12(F, eb12, m12, i12)
+            WR12 = ('assign', 'assign_every', 'assign_all', 'assign_respecting_type')
+            # the arm itself, and helpers the arm was extracted into (crate functions of eval called from the arm)
+            cands = [(eb12, regn12)]
+            for c in eb12.calls_in(regn12):
+                if c.target.startswith('eval::') and F.has_fn(c.target) and c.target != 'eval::evaluate' and c.target.rsplit('::', 1)[-1] not in WR12 \
+                        and not c.target.startswith('eval::eval_lvalue'):
+                    hb = F.body(c.target)
+                    cands.append((hb, set(hb.reach)))
+            n112 += 1
+            found, late = False, []
+            for (b12, r12) in cands:
+                cs12 = b12.calls_in(r12)
+                asg12 = [c for c in cs12 if c.target.rsplit('::', 1)[-1] in WR12]
+                evs12 = [c for c in cs12 if c.target == 'eval::evaluate']
+                if asg12 and evs12:
+                    found = True
+                late += [(a_, e_) for a_ in asg12 for e_ in evs12 if e_.bb != a_.bb and e_.bb in (b12.reachable_from(a_.bb) & r12)]
+            if late:
+                rep.viol('R1.12', 'eval::evaluate|Assign|evaluate-after-write', 'part of the right-hand side is evaluated after a target has been written: `a, b = a + b, a - b` computes the second value from the new a', late[0][1].loc())
+            elif not found:
+                rep.error('R1.12', 'Expr::Assign arm: no body with both the evaluation of the right-hand side and the write')
+            else:
+                rep.ok('R1.12', 'Expr::Assign arm', 'no evaluate call reachable after a write call (%d bod(ies) examined)' % len(cands))
+        rep.floor('R1.12', 'Expr::Assign arms', n112, 1)
+
     rep.undecided += ['clause (c): which index/key a type-correct mutation addresses and which value it writes']
     return META
